@@ -169,6 +169,7 @@ type SrvFid struct {
 	Dirents   []byte      // If directory, the serialized dirents
 	User      User        // The SrvFid's user
 	Aux       interface{} // Can be used by the file server implementation for per-SrvFid data
+	destroyed bool        // FidDestroy has been reported for the SrvFid
 }
 
 // The SrvReq type represents a 9P2000 request. Each request has a
@@ -519,7 +520,26 @@ func (fid *SrvFid) DecRef() {
 	delete(conn.fidpool, fid.fid)
 	conn.Unlock()
 
+	if !fid.destroyOnce() {
+		return
+	}
+
 	if fop, ok := (conn.Srv.ops).(SrvFidOps); ok {
 		fop.FidDestroy(fid)
 	}
+}
+
+// destroyOnce reports whether the caller is the one that has to report
+// the destruction of the fid to the file server implementation: true
+// exactly once per fid, whether the last reference goes away or the
+// connection is closed with requests still using the fid.
+func (fid *SrvFid) destroyOnce() bool {
+	fid.Lock()
+	defer fid.Unlock()
+	if fid.destroyed {
+		return false
+	}
+
+	fid.destroyed = true
+	return true
 }
